@@ -95,9 +95,12 @@ class Repo:
     """Parsed view of <root>/moPepGen."""
     PKG = 'moPepGen'
 
-    def __init__(self, root: str, overlay: Optional[Dict[str, str]] = None):
+    def __init__(self, root: str, overlay: Optional[Dict[str, str]] = None, sources: Optional[Dict[str, str]] = None,
+                 raw: bool = False):
         self.root = os.path.abspath(root)
         self.overlay = overlay or {}       # relpath -> source text used instead of the file (mutation sweeps)
+        self.sources = sources             # relpath -> source: the whole tree given in memory (reference snapshot)
+        self.raw = raw                     # no normalisation / equivalence / alpha passes
         self.modules: Dict[str, ModuleInfo] = {}
         self.functions: Dict[str, FuncInfo] = {}
         self.classes: Dict[str, ClassInfo] = {}
@@ -105,15 +108,22 @@ class Repo:
         self.owner: Dict[int, FuncInfo] = {}
         self.renamed: Dict[str, Dict[str, str]] = {}
         self.normal_info: Dict[str, object] = {}
+        self.equiv_info: Dict[str, object] = {}
         self._load()
-        if NORMAL:
+        if NORMAL and not raw:
             from .normal import normalise_repo
             self.normal_info = normalise_repo(self)
-        if ALPHA:
+            from .equiv import apply_equivalence
+            self.equiv_info = apply_equivalence(self)
+        if ALPHA and not raw:
             self._alpha()
 
     # ------------------------------------------------------------------ load
     def _load(self):
+        if self.sources is not None:
+            for rel in sorted(self.sources):
+                self._add_source(rel, self.sources[rel])
+            return
         pkg = os.path.join(self.root, self.PKG)
         if not os.path.isdir(pkg):
             raise AnalysisError(f"package directory not found: {pkg}")
@@ -128,18 +138,21 @@ class Repo:
                 else:
                     with open(p, 'rt', encoding='utf-8') as h:
                         src = h.read()
-                try:
-                    tree = ast.parse(src, filename=rel)
-                except SyntaxError as e:
-                    raise AnalysisError(f"cannot parse {rel}: {e}") from e
-                modname = rel[len(self.PKG) + 1:-3].replace(os.sep, '.')
-                if modname.endswith('.__init__'):
-                    modname = modname[:-9]
-                elif modname == '__init__':
-                    modname = ''
-                m = ModuleInfo(rel, modname, src, tree)
-                self.modules[rel] = m
-                self._index_module(m)
+                self._add_source(rel, src)
+
+    def _add_source(self, rel, src):
+        try:
+            tree = ast.parse(src, filename=rel)
+        except SyntaxError as e:
+            raise AnalysisError(f"cannot parse {rel}: {e}") from e
+        modname = rel[len(self.PKG) + 1:-3].replace(os.sep, '.')
+        if modname.endswith('.__init__'):
+            modname = modname[:-9]
+        elif modname == '__init__':
+            modname = ''
+        m = ModuleInfo(rel, modname, src, tree)
+        self.modules[rel] = m
+        self._index_module(m)
 
     def reindex(self):
         """rebuild the indexes after the module ASTs were rewritten in place (sa/normal.py)"""
